@@ -239,7 +239,7 @@ DepositCount == Len(LeavesOf(blk))
 (* event shapes; leaf atoms are assigned fresh, in order *)
 Shapes == IF Kind = "ger" THEN {<<"ger">>} \cup {<<"gerrm", x>> : x \in 1..MaxLeaves}
           ELSE IF Kind = "bridge"
-          THEN {<<"leaf">>, <<"leafR">>, <<"other">>} \cup (IF AllowGap THEN {<<"gap">>} ELSE {})
+          THEN {<<"leaf">>, <<"leafR">>, <<"other">>} \cup (IF AllowGap THEN {<<"gap">>, <<"back">>} ELSE {})
                \cup (IF Dups THEN {<<"leafD", k>> : k \in 1..MaxLeaves} ELSE {})
           ELSE {<<"leaf">>, <<"leafR">>, <<"v2good">>, <<"v2bad">>} \cup {<<"verify", r, x>> : r \in Rollups, x \in ExitRoots}
 
@@ -253,12 +253,14 @@ Concrete(shapes, nl, dc) ==   \* turn a sequence of shapes into events with fres
        ELSE IF s = "leafR" THEN <<[t |-> "leaf", x |-> reuse[dc], dc |-> dc]>> \o Concrete(Tail(shapes), nl, dc + 1)
        ELSE IF s = "leafD" THEN <<[t |-> "leaf", x |-> Head(shapes)[2], dc |-> dc]>> \o Concrete(Tail(shapes), nl, dc + 1)
        ELSE IF s = "gap" THEN <<[t |-> "leaf", x |-> nl, dc |-> dc + 1]>> \o Concrete(Tail(shapes), nl + 1, dc + 2)
+       \* a deposit count that goes backwards (a log delivered twice, a reorg the detector has not reported yet)
+       ELSE IF s = "back" THEN <<[t |-> "leaf", x |-> nl, dc |-> dc - 1]>> \o Concrete(Tail(shapes), nl + 1, dc)
        ELSE IF s = "other" THEN <<[t |-> "other"]>> \o Concrete(Tail(shapes), nl, dc)
        ELSE IF s = "v2good" THEN <<[t |-> "v2", good |-> TRUE]>> \o Concrete(Tail(shapes), nl, dc)
        ELSE IF s = "v2bad" THEN <<[t |-> "v2", good |-> FALSE]>> \o Concrete(Tail(shapes), nl, dc)
        ELSE <<[t |-> "verify", r |-> Head(shapes)[2], x |-> Head(shapes)[3]]>> \o Concrete(Tail(shapes), nl, dc)
 
-NLeaves(shapes) == Cardinality({i \in DOMAIN shapes : shapes[i][1] \in {"leaf", "gap", "ger"}})   \* fresh atoms consumed (leafR consumes none)
+NLeaves(shapes) == Cardinality({i \in DOMAIN shapes : shapes[i][1] \in {"leaf", "gap", "back", "ger"}})   \* fresh atoms consumed (leafR consumes none)
 
 ShapeSeqs == UNION {[1..n -> Shapes] : n \in 0..MaxEvents}
 
@@ -270,15 +272,17 @@ DoProcess ==
     \* whose frontier index is in sync with the DB.  (After a failed commit / cancelled context lastIndex is ahead of
     \* the DB until the next AddLeaf; a gap that happens to match it would be accepted silently - detection completeness
     \* is not claimed by any listed property; recorded as information in DESIGN.md section 6.)
-    /\ (\E i \in DOMAIN ss : ss[i][1] = "gap") => mem.lastIndex \in {-2, DepositCount - 1}
+    /\ (\E i \in DOMAIN ss : ss[i][1] \in {"gap", "back"}) => mem.lastIndex \in {-2, DepositCount - 1}
+    /\ \A i \in DOMAIN ss : ss[i][1] = "back" =>
+          DepositCount + Cardinality({j \in 1..(i - 1) : ss[j][1] \in {"leaf", "leafR", "leafD"}}) >= 1
     \* a V2 announcement only makes sense after a leaf exists (the contract emits it after UpdateL1InfoTree)
     /\ \A i \in DOMAIN ss : ss[i][1] \in {"v2good", "v2bad"} =>
           (aroots # {} \/ \E j \in 1..(i - 1) : ss[j][1] = "leaf")
     /\ \A i \in DOMAIN ss : ss[i][1] = "gerrm" => ss[i][2] < nextLeaf      \* only a GER that was injected can be removed
     \* a dropped leaf can only be mined again at the index it had
     /\ \A i \in DOMAIN ss : ss[i][1] = "leafR" =>
-          (DepositCount + Cardinality({j \in 1..(i - 1) : ss[j][1] \in {"leaf", "leafR", "leafD", "gap"}})) \in DOMAIN reuse
-    /\ ~(\E i, j \in DOMAIN ss : ss[i][1] = "gap" /\ ss[j][1] \in {"leafR", "leafD"})
+          (DepositCount + Cardinality({j \in 1..(i - 1) : ss[j][1] \in {"leaf", "leafR", "leafD", "gap", "back"}})) \in DOMAIN reuse
+    /\ ~(\E i, j \in DOMAIN ss : ss[i][1] \in {"gap", "back"} /\ ss[j][1] \in {"leafR", "leafD"})
     /\ \A i \in DOMAIN ss : ss[i][1] = "leafD" => ss[i][2] < nextLeaf       \* only the content of a deposit that existed
     /\ LET b   == LastBlock + 1
            evs == Concrete(ss, nextLeaf, DepositCount)
